@@ -16,6 +16,7 @@ import copy
 import itertools
 import json
 import re
+import threading
 
 import numpy as np
 import onnx
@@ -46,6 +47,7 @@ ASSUMPTIONS = [
 ALPHABET = ["a.b", "a_b", "0", "1x", "if", "class", "r_if", "opset18", "alpha", "v1", "x"]
 OPTION_NAMES = ("rename", "use_operators", "inline_const", "skip_initializers")
 ALL_OPTS = [list(bits) for bits in itertools.product([0, 1], repeat=4)]
+RUN_TIMEOUT_S = 10.0   # a round-tripped while-loop may never terminate (seen: names colliding after clean-up)
 QUICK_REPRESENTATIVES = 4
 THOROUGH_REPRESENTATIVES = 3
 
@@ -227,6 +229,33 @@ def _ref_normalise(m):
     return m
 
 
+class RunTimeout(Exception):
+    pass
+
+
+def run_session(sess, feeds, timeout=None):
+    """session.run with a watchdog: ORT polls RunOptions.terminate between nodes, also inside Loop bodies."""
+    names = {i.name for i in sess.get_inputs()}
+    ro = runeq.ort().RunOptions()
+    fired = []
+
+    def fire():
+        fired.append(1)
+        ro.terminate = True
+
+    timer = threading.Timer(timeout or RUN_TIMEOUT_S, fire)
+    timer.daemon = True
+    timer.start()
+    try:
+        return sess.run(None, {k: v for k, v in feeds.items() if k in names}, ro)
+    except Exception as e:  # noqa: BLE001
+        if fired:
+            raise RunTimeout() from None
+        raise runeq.RunError("run", str(e)[:500]) from None
+    finally:
+        timer.cancel()
+
+
 class Case:
     """One (base, kind, constants, renaming): the proto given to proto2python and everything needed to judge."""
 
@@ -314,9 +343,12 @@ class Case:
         for fd in self.feeds:
             feeds = self._feeds_for_original(fd)
             try:
-                o = runeq.run_ort(self.orig_model, feeds, sess)
+                o = run_session(sess, feeds)
             except runeq.RunError as e:
                 self.admit_reasons["ort-" + e.kind] += 1
+                continue
+            except RunTimeout:
+                self.admit_reasons["ort-timeout"] += 1
                 continue
             try:
                 if refm is None:
@@ -401,9 +433,13 @@ def _after_export(case, src, opts):
         names = [i.name for i in run_model.graph.input]
         feeds = {n: v for n, v in zip(names, pos) if v is not None}
         try:
-            got = runeq.run_ort(run_model, feeds, sess)
+            got = run_session(sess, feeds)
         except runeq.RunError as e:
             return dict(kind="not-equivalent", symptom="run-fails", detail=e.msg[:300])
+        except RunTimeout:
+            return dict(kind="not-equivalent", symptom="does-not-terminate",
+                        detail=dict(what=f"the original terminates, the round-tripped model was stopped after {RUN_TIMEOUT_S}s",
+                                    feed={k: runeq.describe(v) for k, v in fd.items()}))
         d = runeq.compare(exp, got)
         if d:
             return dict(kind="not-equivalent", symptom="outputs-differ",
